@@ -391,7 +391,21 @@ impl FileSpec {
                 }
             })
             .collect::<Vec<PathBuf>>();
-        log_files.sort_unstable();
+        // sort by the name without suffix (and without ".gz"); otherwise, depending on the suffix,
+        // a file with an extended infix like "r2024-06-09_10-00-00.restart-0000" would be
+        // sorted before its older sibling without ".restart-..."
+        log_files.sort_by_cached_key(|path| {
+            let name = path.file_name().unwrap_or_default().to_string_lossy();
+            let name = name.strip_suffix(".gz").unwrap_or(&name);
+            let name = match self.o_suffix {
+                Some(ref suffix) => name
+                    .strip_suffix(suffix.as_str())
+                    .and_then(|n| n.strip_suffix('.'))
+                    .unwrap_or(name),
+                None => name,
+            };
+            (name.to_string(), path.clone())
+        });
         log_files.reverse();
         log_files
     }
